@@ -57,15 +57,15 @@ CHECKS = {
     ),
     'C17': dict(
         engine='verus-extract', category='proof',
-        technique='Verus over idealised reals (Step/Phase/Sine/Saw/Square contracts, congruence lemma) + Kani bit-precise full-domain harnesses (noise for every seed; phase wrap, saw, square from every phase state via a guarded hook; step == correctly rounded hz / rate for concrete rates)',
-        text='Phase::next_phase(_wrapped_to) is verified to yield the current phase and advance it by exactly one step of its step source, wrapped into [0, rem) and congruent to phase + step (real modulus); Hz::step consumes exactly one frequency frame and yields frequency / rate; Sine/Saw/Square yield sin(2 pi p), 1 - 2p, +-1 by half-cycle and advance the phase as Phase does; lemma_phase_accumulates: the phase after n frames is the sum of steps mod 1. Kani proves bit-precisely that the noise output is within [-1,1] and never panics for every u64 seed, that the wrapped phase stays in [0,1) from every phase and every finite step, that saw is in (-1,1] and square is +-1 by half-cycle, and that ConstHz / Hz steps are bit-for-bit the correctly rounded quotient hz / rate for rate 49 (every finite f32-valued frequency; rate 44100 and every f64 frequency in the thorough tier).',
-        note='Phase arithmetic PROVED OVER EXACT REALS (T4) with the wrapped range also proved bit-precisely. sin assumed to be the sine. NOT claimed: simplex noise amplitude; purity of the noise is bounded to 768 seeds (c17_b_noise_pure).',
+        technique='Verus over idealised reals (Step/Phase/Sine/Saw/Square contracts, congruence lemma) + Kani bit-precise full-domain harnesses (noise for every seed; saw, square from every phase state via a guarded hook; step == correctly rounded hz / rate for concrete rates). The phase wrap is decided by Verus only (Kani/CBMC evaluates f64 % to 0.0)',
+        text='Phase::next_phase(_wrapped_to) is verified to yield the current phase and advance it by exactly one step of its step source, wrapped into [0, rem) and congruent to phase + step (real modulus); Hz::step consumes exactly one frequency frame and yields frequency / rate; Sine/Saw/Square yield sin(2 pi p), 1 - 2p, +-1 by half-cycle and advance the phase as Phase does; lemma_phase_accumulates: the phase after n frames is the sum of steps mod 1. Kani proves bit-precisely that the noise output is within [-1,1] and never panics for every u64 seed, that next_phase yields the current phase bit-for-bit from every phase state, that saw is in (-1,1] and square is +-1 by half-cycle, and that ConstHz / Hz steps are bit-for-bit the correctly rounded quotient hz / rate for rate 49 (every finite f32-valued frequency; rate 44100 and every f64 frequency in the thorough tier).',
+        note='Phase arithmetic PROVED OVER EXACT REALS (T4; f64 % read as the real modulus — Kani cannot cross-check it: CBMC 6.11 evaluates f64 % to 0.0). sin assumed to be the sine. NOT claimed: simplex noise amplitude; purity of the noise is bounded to 768 seeds (c17_b_noise_pure).',
     ),
     'C20': dict(
         engine='verus-extract', category='proof',
-        technique='Verus: size_hint contract against the closed-form chunk count, inductive lemma closed form == recurrence, Hann/Rectangle shapes over idealised reals; Kani: next() slice arithmetic for every usize triple',
-        text='Windower::size_hint (extracted) is verified to bracket count(L,b,h) = floor((L-b)/h)+1 (0 if L<b); lemma_count_closed_form proves by induction on L that the recurrence Windower::next implements (a chunk iff b <= L, then L-h frames) yields exactly that count for every L, b, h; Kani proves next() implements that recurrence for every usize (L, bin, hop). Hann::window is verified to compute 0.5(1-cos(2 pi p)) and lemmas show it lies in [0,1], is 0 at both ends, 1 at 0.5 and symmetric; Rectangle::window is the identity gain everywhere.',
-        note='Hann shape PROVED OVER EXACT REALS with assumed cosine facts (T4). The data path of a chunk (frames k*h+j scaled by the window) is covered only by the bounded thorough-tier Kani run (L <= 4). Phases i/(n-1) rely on the Phase contract (C17).',
+        technique='Verus: size_hint contract against the closed-form chunk count, inductive lemma closed form == recurrence, Hann/Rectangle shapes and Window::new / Window::next (phases i/(n-1)) over idealised reals; Kani: next() slice arithmetic for every usize triple, bounded chunk data path',
+        text='Windower::size_hint (extracted) is verified to bracket count(L,b,h) = floor((L-b)/h)+1 (0 if L<b); lemma_count_closed_form proves by induction on L that the recurrence Windower::next implements (a chunk iff b <= L, then L-h frames) yields exactly that count for every L, b, h; Kani proves next() implements that recurrence for every usize (L, bin, hop). Hann::window is verified to compute 0.5(1-cos(2 pi p)) and lemmas show it lies in [0,1], is 0 at both ends, 1 at 0.5 and symmetric; Rectangle::window is the identity gain everywhere. Window::new(n) starts at phase 0 with step*(n-1) == 1 and Window::next puts the value of the window function at the CURRENT phase into every channel and advances the phase by one step mod 1 (unit osc); lemma_window_phases: frame i is W(i/(n-1) mod 1).',
+        note='Hann shape PROVED OVER EXACT REALS with assumed cosine facts (T4). The data path of a chunk (frames k*h+j multiplied once by the window value) is covered by bounded Kani harnesses only (4 concrete shapes in the quick tier, L <= 4 with symbolic bin/hop in the thorough tier), and under Kani only for the window value of phase 0 (CBMC evaluates f64 % to 0.0). Windowed::next itself is not under a Verus contract (closure capturing &mut).',
     ),
     'C08': dict(
         engine='verus-extract', category='proof',
